@@ -120,6 +120,34 @@ def expand(job):
         frac = rnd.random() < 0.15
         a = rand_dur(rnd, frac)
         x = rnd.random()
+        y = rnd.random()
+        if y < 0.04:
+            # very long durations one second (or one day) apart: equality and order must not be judged to a relative tolerance
+            a = {"d": rnd.choice([1, -1]) * rnd.randint(10 ** 7, 4 * 10 ** 8)}
+            if rnd.random() < 0.5:
+                a["s"] = rnd.randint(0, 86399)
+            b = dict(a)
+            k = rnd.choice(["s", "s", "s", "mi", "d"])
+            b[k] = b.get(k, 0) + rnd.choice([1, -1, 2, 0])
+            yield {"mode": gen.spelling(rnd), "a": a, "b": b, "c": rand_dur(rnd, nominal=False), "n": rnd.randint(-2, 2)}
+            continue
+        if y < 0.10:
+            # a decimal spelling and the whole-number spelling of the same length in a finer unit (1,1 h = 66 min):
+            # whether the two are == is a matter of float rounding, but equal values must hash equally and must not be ordered
+            k = rnd.choice(["h", "mi"])
+            fine = {"h": "mi", "mi": "s", "d": "h"}[k]
+            per = {"h": 60, "mi": 60, "d": 24}[k]
+            whole, tenths = rnd.randint(-40, 40), rnd.choice([1, 2, 3, 4, 6, 7, 8, 9, 5])
+            per10 = per * tenths
+            if per10 % 10:
+                tenths = 5
+                per10 = per * 5
+            a = {k: whole + tenths / 10.0}
+            b = {fine: whole * per + per10 // 10}
+            if rnd.random() < 0.3:
+                a, b = b, a
+            yield {"mode": gen.spelling(rnd), "a": a, "b": b, "c": rand_dur(rnd), "n": rnd.randint(-6, 6)}
+            continue
         if x < 0.3:
             b = respell_exact(rnd, a)
         elif x < 0.4:
